@@ -30,6 +30,8 @@ func init() {
 				if id == "C03" {
 					// the node agent's side of the protocol
 					runDaemonWorld(c, "C03", nil)
+					// … and what it writes into the NodeRuntime object (agent.go)
+					agRun(c, c.Scale(150, 3000))
 				}
 				// the closed loop: the real Reconcile against a fake cloud (monitors)
 				runIpamLoops(c, id)
@@ -37,6 +39,9 @@ func init() {
 			Exec2: func(c *Ctx, ops []string) ([]string, []string) {
 				if len(ops) > 0 && strings.HasPrefix(ops[0], "dm.") {
 					return runDaemonWorld(c, id, ops)
+				}
+				if len(ops) > 0 && strings.HasPrefix(ops[0], "rt.") {
+					return ops, agExec(c, ops)
 				}
 				if len(ops) > 0 && strings.HasPrefix(ops[0], "ip.loop ") {
 					// a closed-loop case: deterministic given its seed
